@@ -269,7 +269,9 @@ def errS : Option RErr → String
   | none => "-"
   | some .invalidName => "invalidname" | some .format => "format" | some .servfail => "servfail"
   | some .nxdomain => "nxdomain" | some .notimp => "notimp" | some .refused => "refused"
-  | some .rcode => "rcode" | some .transport => "transport"
+  -- an error with no identity of its own (a response code without a sentinel, a transport failure):
+  -- callers can tell neither from the other except by the message text, which is not compared
+  | some .rcode => "unnamed" | some .transport => "unnamed"
 end RT
 
 structure CacheWorld where
